@@ -171,7 +171,7 @@ a directive (ASCII or not) makes the whole directive text appear in the output v
 formatting continues after it. -/
 theorem C17_unknown_echo (d : DT) (pre fs ds : Str) (c : Char) (post : Str)
     (hpre : '%' ∉ pre) (hfs : ∀ x ∈ fs, isFlagChar x = true) (hds : ∀ x ∈ ds, x.isDigit = true)
-    (hds0 : ds.head? ≠ some '0') (hw : decVal ds < 2 ^ 64)
+    (hds0 : ds.head? ≠ some '0') (hw : decVal ds < 2 ^ 16)
     (hc1 : isFlagChar c = false) (hc2 : c.isDigit = false) (hc3 : c ≠ 'E') (hc4 : c ≠ 'O') (hc5 : c ≠ ':')
     (hc : knownDirective c = false) :
     strftime d (pre ++ '%' :: (fs ++ ds ++ c :: post)) =
@@ -211,7 +211,7 @@ theorem C17_malformed_is_err (d : DT) (pre fs ds : Str)
     (hds0 : ds.head? ≠ some '0') :
     strftime d (pre ++ '%' :: (fs ++ ds)) = .err ∧
     (∀ m, m = 'E' ∨ m = 'O' → strftime d (pre ++ '%' :: (fs ++ ds ++ [m])) = .err) ∧
-    (∀ c post, 2 ^ 64 ≤ decVal ds → isFlagChar c = false → c.isDigit = false → c ≠ 'E' → c ≠ 'O' → c ≠ ':' →
+    (∀ c post, 2 ^ 16 ≤ decVal ds → isFlagChar c = false → c.isDigit = false → c ≠ 'E' → c ≠ 'O' → c ≠ ':' →
       strftime d (pre ++ '%' :: (fs ++ ds ++ c :: post)) = .err) := by
   refine ⟨strftime_dangling d pre fs ds hpre hfs hds hds0,
     fun m hm => strftime_dangling_modifier d pre fs ds m hpre hfs hds hds0 hm, ?_⟩
@@ -238,7 +238,7 @@ larger of the two — filled with `0`, or with blanks under the `_` flag and by 
 carries its sign as `fmtNumeric_neg` describes.  Formatting then continues with the rest. -/
 theorem C17_numeric_directive (d : DT) (pre fs ds : Str) (c : Char) (post : Str) (v : Int) (dw : Nat) (b : Bool)
     (hpre : '%' ∉ pre) (hfs : ∀ x ∈ fs, isFlagChar x = true) (hds : ∀ x ∈ ds, x.isDigit = true)
-    (hds0 : ds.head? ≠ some '0') (hw : decVal ds < 2 ^ 64)
+    (hds0 : ds.head? ≠ some '0') (hw : decVal ds < 2 ^ 16)
     (hf : numericField d c = some (v, dw, b)) (hv : 0 ≤ v) :
     let fl := fs.foldl Flags.apply {}
     let width := if ds = [] then dw else decVal ds
@@ -268,7 +268,7 @@ being characterised by: nine characters, all decimal digits, value = the nanosec
 continue with zeros when `k > 9`. -/
 theorem C17_fraction (d : DT) (pre fs ds : Str) (c : Char) (post : Str)
     (hpre : '%' ∉ pre) (hfs : ∀ x ∈ fs, isFlagChar x = true) (hds : ∀ x ∈ ds, x.isDigit = true)
-    (hds0 : ds.head? ≠ some '0') (hw : decVal ds < 2 ^ 64) (hc : c = 'L' ∨ c = 'N') :
+    (hds0 : ds.head? ≠ some '0') (hw : decVal ds < 2 ^ 16) (hc : c = 'L' ∨ c = 'N') :
     let k := if ds = [] then (if c = 'L' then 3 else 9) else decVal ds
     let nine := pad9 (nanos d)
     (nine.length = 9 ∧ (∀ x ∈ nine, x.isDigit = true) ∧ (decVal nine : Int) = nanos d) ∧
